@@ -421,11 +421,49 @@ def drive(mod, tier, seed, replay=None):
         cases = [rp['case']] if 'case' in rp else []
     else:
         cases += list(mod.gen_cases(rng, tier))
+    # 3b. change-triggered escalation: the source of a function this property's model mirrors differs from the pinned tree the
+    #     model was validated against -> also run (a bounded part of) the thorough-tier generators through the whole pipeline.
+    changed = []
+    try:
+        from gen import sources as _sources
+        changed = _sources.changed_functions(REPO, pid)
+    except Exception as e:
+        out.log['pins_error'] = f'{type(e).__name__}: {e}'
+    out.log['changed_modelled_functions'] = changed[:40]
+    escalated = 0
+    if changed and tier == 'quick' and not replay and os.environ.get('VERIF_NO_ESCALATE') != '1':
+        import itertools
+        cap = int(os.environ.get('VERIF_ESCALATE_CASES', str(max(1500, 4 * len(cases)))))
+        skip = getattr(mod, 'ESCALATE_SKIP_OPS', ())
+        rng2 = random.Random(f'{pid}-{seed}-escalated')
+        extra = []
+        try:
+            # a uniform sample (reservoir) over all phases of the thorough generator, generation itself bounded in time
+            tg = time.time(); pick = random.Random(f'{pid}-{seed}-reservoir'); res = []
+            for gi, c in enumerate(mod.gen_cases(rng2, 'thorough')):
+                if c.get('op') in skip: continue
+                if len(res) < cap: res.append((gi, c))
+                else:
+                    j = pick.randrange(gi + 1)
+                    if j < cap: res[j] = (gi, c)
+                if gi % 512 == 0 and time.time() - tg > 45: break
+            extra = [c for _, c in sorted(res, key=lambda t: t[0])]
+        except Exception as e:
+            out.log['escalation_error'] = f'{type(e).__name__}: {e}'
+        cases += extra
+        escalated = len(extra)
+    out.log['escalated_cases'] = escalated
     # 4. run the implementation, the oracle
     hist = {}
     observed = []
     t1 = time.time()
-    for c in cases:
+    budget = float(os.environ.get('VERIF_ESCALATE_SECONDS', '240'))
+    n_base = len(cases) - escalated
+    for ci, c in enumerate(cases):
+        if escalated and ci >= n_base and time.time() - t1 > budget:
+            del cases[ci:]          # out of time: the remaining escalated cases are dropped (recorded below)
+            out.log['escalation_truncated_at'] = ci - n_base
+            break
         try:
             obs = mod.run_impl(c)
         finally:
@@ -525,6 +563,7 @@ def drive(mod, tier, seed, replay=None):
         'model_vs_impl_cases': nev, 'model_vs_impl_diverging': len(diverging),
         'oracle_failures': len(fails), 'known_finding_hits': len(fails) - len(fail_idx),
         'input_histogram': hist, 'broken': broken,
+        'changed_modelled_functions': changed[:40], 'escalated_cases': escalated,
     }
     out.assumptions = getattr(mod, 'ASSUMPTIONS', [])
     return out.finish('proof')
